@@ -34,6 +34,9 @@ def verus_unit(name, builder, canary=True):
             text, em = builder()
         except gen_verus.LostAnchor as e:
             raise Undecided(f'lost anchor while generating {name}: {e}')
+        if text is None:
+            return {'engine': 'verus', 'name': name, 'cmd': '', 'cached': False, 'wall_s': 0, 'solver_s': 0, 'obligations': [],
+                    'failures': [], 'undecided': [], 'records': [], 'scan': {}}
         if canary:
             text = add_canary(text, name)
         res = vrunner.run_verus(name, text)
@@ -79,3 +82,47 @@ def run_units(names, prop, tier, seed):
         for n in names:
             results.append(futs[n].result())
     return results
+
+# ---------------- per-type units from the expansions ----------------
+import expand
+import gen_types
+
+_types_mem = {}
+
+
+def types_build(cfg, prefix, crate_root=False):
+    if (cfg, prefix) not in _types_mem:
+        try:
+            text, label = expand.expanded(cfg)
+            _types_mem[(cfg, prefix)] = gen_types.build_types_units(text, label, prefix, crate_root=crate_root)
+        except gen_verus.LostAnchor as e:
+            raise Undecided(f'lost anchor while generating {prefix}: {e}')
+        except rsparse_err() as e:
+            raise Undecided(f'expansion {cfg} does not parse: {e}')
+    return _types_mem[(cfg, prefix)]
+
+
+def rsparse_err():
+    import rsparse
+    return rsparse.ParseError
+
+
+class _Rec:
+    def __init__(self, records):
+        self.records = records
+
+
+def types_unit(cfg, prefix, which, crate_root=False):
+    def builder():
+        res = types_build(cfg, prefix, crate_root)
+        if which not in res:
+            return None, None
+        text, recs = res[which]
+        return text, _Rec(recs)
+    return builder
+
+
+for cfg, prefix, root in (('q_f64', 'types_q_f64', False), ('q_dec', 'types_q_dec', False), ('astro_f64', 'types_astro_f64', True),
+                          ('fix_f64', 'types_fix_f64', True), ('fix_dec', 'types_fix_dec', True)):
+    for which in ('ref', 'noref'):
+        register(f'{prefix}_{which}', verus_unit(f'{prefix}_{which}', types_unit(cfg, prefix, which, root)))
